@@ -884,9 +884,25 @@ def set_cases(E, ctx):
     # the argument list may be modified in place; in callee mode it is poisoned instead of havoced (see make)
     mods = [db] + ([ctx.node] if (unit_mode and isinstance(ctx.node, ListObj)) else [])
     # C07: a failed _set has written nothing (reads precede writes) and names a hash that is absent
+    def missing_exc(e):
+        out = keyerror_clauses(e, ctx.old_has(db))
+        if len(e.args) == 1:
+            h = HM.bytes_of(e.args[0])
+            HM.unfold_hneed(E, Dold, K, h)
+            for (Dsub, Ksub, hsub) in E.ghost.get("hneed_rules", []):
+                HM.unfold_hneed(E, Dsub, Ksub, hsub)
+            out.append(("missing-node-is-on-the-key-s-path", mk_bool(HM.hneed(Dold, K, h))))
+        return out
+
+    def missing_make():
+        e = keyerror_make(E, ctx.old_has(db))
+        h = HM.bytes_of(e.args[0])
+        E.assume(mk_bool(HM.hneed(Dold, K, h)))
+        E.ghost.setdefault("hneed_rules", []).append((Dold, K, h))
+        return e
     return [Case("updated", ensures=ens if unit_mode else None, make=None if unit_mode else make, post=post, modifies=mods),
-            Case("missing-node", raises=KeyError, modifies=[], exc=lambda e: keyerror_clauses(e, ctx.old_has(db)),
-                 make=None if unit_mode else (lambda: keyerror_make(E, ctx.old_has(db))))]
+            Case("missing-node", raises=KeyError, modifies=[], exc=missing_exc,
+                 make=None if unit_mode else missing_make)]
 
 
 def keyerror_clauses(e, old_has):
@@ -1217,9 +1233,17 @@ def api_write_cases(kind):
                 h = HM.bytes_of(e.args[0])
             except Unsupported:
                 return [("exception-carries-hash-root-key-prefix", False)]
-            return [("hash-is-absent", mk_bool(z3.Not(z3.Select(ctx.old_has(db), h)))),
-                    ("names-the-root", ops.py_eq(e.args[1], SSeq(root_t, "bytes"))),
-                    ("names-the-key", ops.py_eq(e.args[2], ctx.key))]
+            out = [("hash-is-absent", mk_bool(z3.Not(z3.Select(ctx.old_has(db), h)))),
+                   ("names-the-root", ops.py_eq(e.args[1], SSeq(root_t, "bytes"))),
+                   ("names-the-key", ops.py_eq(e.args[2], ctx.key))]
+            if kind == "set":
+                # a failing insertion names the root itself or a node on the key's path (a deletion may also need
+                # the sibling that a collapsing branch is merged with: not stated here)
+                HM.unfold_hneed(E, Dold, K, h)
+                out.append(("missing-node-is-on-the-key-s-path",
+                            mk_bool(z3.Implies(z3.Length(V) > 0, z3.Or(h == root_t, HM.hneed(Dold, K, h))))))
+            return out
+
         def make_exc():
             e = ExcObj(objs.exc(E, "MissingTrieNode"), (objs.hash32(E, "missing"), SSeq(root_t, "bytes"), ctx.key, None))
             for (_n, c) in exc(e):
